@@ -113,4 +113,103 @@ SCENARIO("adj") {
   out("adj", X.adj());
 }
 
+
+// ---- exp / log with and without Jacobian (C02, C03, C05, C09)
+SCENARIO("exp") {
+  T t = sym_tangent<T>("t");
+  Jac J = poison_mat<DoF, DoF>("J");
+  G Z = t.exp(J);
+  out("t", t.coeffs()); out("out", Z.coeffs()); out("J", J);
+}
+SCENARIO("exp__") {
+  T t = sym_tangent<T>("t");
+  G Z = t.exp();
+  out("t", t.coeffs()); out("out", Z.coeffs());
+}
+SCENARIO("log") {
+  G X = sym_group<G>("x");
+  Jac J = poison_mat<DoF, DoF>("J");
+  T t = X.log(J);
+  out("X", X.coeffs()); out("out", t.coeffs()); out("J", J);
+}
+SCENARIO("log__") {
+  G X = sym_group<G>("x");
+  T t = X.log();
+  out("X", X.coeffs()); out("out", t.coeffs());
+}
+
+// ---- tangent-side Jacobian blocks and algebra (C06, C07)
+SCENARIO("rjac")    { T t = sym_tangent<T>("t"); out("t", t.coeffs()); out("out", t.rjac()); }
+SCENARIO("ljac")    { T t = sym_tangent<T>("t"); out("t", t.coeffs()); out("out", t.ljac()); }
+SCENARIO("rjacinv") { T t = sym_tangent<T>("t"); out("t", t.coeffs()); out("out", t.rjacinv()); }
+SCENARIO("ljacinv") { T t = sym_tangent<T>("t"); out("t", t.coeffs()); out("out", t.ljacinv()); }
+#ifndef VS_NO_SMALLADJ
+SCENARIO("smallAdj"){ T t = sym_tangent<T>("t"); out("t", t.coeffs()); out("out", t.smallAdj()); }
+#endif
+SCENARIO("hat")     { T t = sym_tangent<T>("t"); out("t", t.coeffs()); out("out", t.hat()); }
+
+// ---- derived operations: value + both Jacobians, and every subset (C04, C05, C09)
+#define VS_BIN_GT(NAME, CALL)                                                     \
+  SCENARIO(NAME) {                                                                \
+    G X = sym_group<G>("x"); T t = sym_tangent<T>("t");                           \
+    Jac Ja = poison_mat<DoF, DoF>("Ja"), Jb = poison_mat<DoF, DoF>("Jb");         \
+    G Z = X.CALL(t, Ja, Jb);                                                      \
+    out("X", X.coeffs()); out("t", t.coeffs()); out("out", Z.coeffs()); out("Ja", Ja); out("Jb", Jb); } \
+  SCENARIO(NAME "__") {                                                           \
+    G X = sym_group<G>("x"); T t = sym_tangent<T>("t");                           \
+    G Z = X.CALL(t);                                                              \
+    out("X", X.coeffs()); out("t", t.coeffs()); out("out", Z.coeffs()); }         \
+  SCENARIO(NAME "_a") {                                                           \
+    G X = sym_group<G>("x"); T t = sym_tangent<T>("t");                           \
+    Jac Ja = poison_mat<DoF, DoF>("Ja");                                          \
+    G Z = X.CALL(t, Ja);                                                          \
+    out("X", X.coeffs()); out("t", t.coeffs()); out("out", Z.coeffs()); out("Ja", Ja); } \
+  SCENARIO(NAME "_b") {                                                           \
+    G X = sym_group<G>("x"); T t = sym_tangent<T>("t");                           \
+    Jac Jb = poison_mat<DoF, DoF>("Jb");                                          \
+    G Z = X.CALL(t, G::_, Jb);                                                    \
+    out("X", X.coeffs()); out("t", t.coeffs()); out("out", Z.coeffs()); out("Jb", Jb); }
+VS_BIN_GT("rplus", rplus)
+VS_BIN_GT("lplus", lplus)
+VS_BIN_GT("plus", plus)
+
+#define VS_BIN_GG(NAME, CALL, RT, COEFFS)                                         \
+  SCENARIO(NAME) {                                                                \
+    G X = sym_group<G>("x"), Y = sym_group<G>("y");                               \
+    Jac Ja = poison_mat<DoF, DoF>("Ja"), Jb = poison_mat<DoF, DoF>("Jb");         \
+    RT Z = X.CALL(Y, Ja, Jb);                                                     \
+    dump_inputs_XY(X, Y); out("out", Z.coeffs()); out("Ja", Ja); out("Jb", Jb); } \
+  SCENARIO(NAME "__") {                                                           \
+    G X = sym_group<G>("x"), Y = sym_group<G>("y");                               \
+    RT Z = X.CALL(Y);                                                             \
+    dump_inputs_XY(X, Y); out("out", Z.coeffs()); }                               \
+  SCENARIO(NAME "_a") {                                                           \
+    G X = sym_group<G>("x"), Y = sym_group<G>("y");                               \
+    Jac Ja = poison_mat<DoF, DoF>("Ja");                                          \
+    RT Z = X.CALL(Y, Ja);                                                         \
+    dump_inputs_XY(X, Y); out("out", Z.coeffs()); out("Ja", Ja); }                \
+  SCENARIO(NAME "_b") {                                                           \
+    G X = sym_group<G>("x"), Y = sym_group<G>("y");                               \
+    Jac Jb = poison_mat<DoF, DoF>("Jb");                                          \
+    RT Z = X.CALL(Y, G::_, Jb);                                                   \
+    dump_inputs_XY(X, Y); out("out", Z.coeffs()); out("Jb", Jb); }
+VS_BIN_GG("rminus", rminus, T, 0)
+VS_BIN_GG("lminus", lminus, T, 0)
+VS_BIN_GG("minus", minus, T, 0)
+VS_BIN_GG("between", between, G, 0)
+
+// ---- tangent plus / minus (C05)
+SCENARIO("tplus") {
+  T a = sym_tangent<T>("a"), b = sym_tangent<T>("b");
+  Jac Ja = poison_mat<DoF, DoF>("Ja"), Jb = poison_mat<DoF, DoF>("Jb");
+  T c = a.plus(b, Ja, Jb);
+  out("a", a.coeffs()); out("b", b.coeffs()); out("out", c.coeffs()); out("Ja", Ja); out("Jb", Jb);
+}
+SCENARIO("tminus") {
+  T a = sym_tangent<T>("a"), b = sym_tangent<T>("b");
+  Jac Ja = poison_mat<DoF, DoF>("Ja"), Jb = poison_mat<DoF, DoF>("Jb");
+  T c = a.minus(b, Ja, Jb);
+  out("a", a.coeffs()); out("b", b.coeffs()); out("out", c.coeffs()); out("Ja", Ja); out("Jb", Jb);
+}
+
 VS_MAIN
